@@ -31,7 +31,8 @@ from vlib import common
 
 RULE = ("retrospective and prospective runs of the real script over a fake pipeline; cases = (mode, batch size, "
         "plates, chains/chunks, publication order variant, marker-first flag, global interruption points); quick: "
-        "every single interruption point for batch 1-3 and <=5 plates; thorough: every single and every pair of "
+        "every single interruption point for batch 1-4 and <=5 plates (pairs for the smallest configurations) + runs reaching "
+        "iter_10/iter_11 (two-digit directory indices); thorough: every single and every pair of "
         "interruption points, batch 1-4, <=9 plates, both modes; plus random directory trees for `examine`. "
         "Non-trivial: at least one interruption that hit after the output directory existed.")
 
@@ -375,12 +376,16 @@ class Run:
         self.sched = []           # derived per-invocation budgets ("n" or int) for the model
         self.launches = []        # [step, launch text, completed?, launch dict]
         self.in_window = False    # an interruption hit between a prospective marker and the end of its step
+        self.window_launch = None # index (in self.launches) of the first launch interrupted inside that window
+        self.user_deleted = []    # completed steps that lived under a directory removed on the script's advice
         self.hit_after_outdir = False
         self.segments = [0]       # atomic actions performed between interruptions
         self.marker_published = False
         self.current_launch = None
         self.status = None
         self.tree = None
+        self.done_steps = set()   # every step completed so far (earlier crash-free process runs included)
+        self.pre_done = set()     # ... by the crash-free process runs executed first
 
     def on_remove(self, path):
         st = step_of_path(self.outdir, path)
@@ -454,6 +459,7 @@ class Run:
                 self.marker_published = True
         self.events.append("C" + text)
         self.launches[-1][2] = True
+        self.done_steps.add((st[0], st[1]))
         self.current_launch = None
 
     # -- driving -------------------------------------------------------------------------------------
@@ -468,6 +474,7 @@ class Run:
             if self.status != "ok":
                 return self
             self.events, self.sched, self.launches, self.segments = [], [], [], [0]
+            self.pre_done = set(self.done_steps)
         return self._process(max_invocations)
 
     def _process(self, max_invocations):
@@ -505,8 +512,11 @@ class Run:
                         self.sched.append(g.count)
                         if os.path.isdir(self.outdir):
                             self.hit_after_outdir = True
-                        if self.current_launch is not None and self.current_launch["wf"] == 3 and self.marker_published:
+                        if (self.current_launch is not None and self.current_launch["wf"] == 3 and self.marker_published
+                                and self.current_launch["plate"] == 0 and cfg["mode"] == "p"):
                             self.in_window = True
+                            if self.window_launch is None:
+                                self.window_launch = len(self.launches) - 1
                         self.current_launch = None
                         budget = pending.pop(0) if pending else None
                         self.segments.append(0)
@@ -523,8 +533,13 @@ class Run:
                         break
                     if outcome[0] == "named":
                         st = step_of_path(self.outdir, outcome[1])
+                        named = os.path.abspath(outcome[1])
+                        for st2 in sorted(self.done_steps):
+                            d2 = os.path.join(self.outdir, "iter_%d" % st2[0], "plate_%d" % st2[1])
+                            if (d2 == named or d2.startswith(named + os.sep)) and os.path.isdir(d2):
+                                self.user_deleted.append([list(st2), os.path.relpath(named, self.outdir)])
                         shutil.rmtree(outcome[1])
-                        self.events.append("U%d.%d" % st if st else "U?")
+                        self.events.append("U%d.%d" % st if st and os.path.basename(named).startswith("plate_") else "U?")
                         continue
                     self.events.append("F" + outcome[1])
                     status = "failed:" + outcome[1]
@@ -562,19 +577,22 @@ def successor(step, B):
 
 def judge(run, ref):
     """property oracle on the implementation: `run` (interrupted) against `ref` (its own crash-free run).
-    returns a list of (key, what, observed, required)"""
+    returns a list of (key, what, observed, required, index of the launch concerned or None)"""
     out = []
     B = run.cfg["B"]
     if ref.status != "ok":
-        return [("reference", "the uninterrupted run does not finish", ref.status, "ok")]
+        return [("reference", "the uninterrupted run does not finish", ref.status, "ok", None)]
     if run.status != "ok":
-        out.append(("finish", "after the interruption(s) the rerun does not finish like the uninterrupted run", run.status, "ok"))
+        out.append(("finish", "after the interruption(s) the rerun does not finish like the uninterrupted run", run.status, "ok", None))
     ref_launch = {st: text for st, text, done, _l in ref.launches}
     ref_done = [st for st, _t, done, _l in ref.launches if done]
     # walk the trace
     completed = []
     first_done = ref_done[0] if ref_done else (0, 0)
-    done_so_far = set()
+    done_so_far = set(run.pre_done)
+    if run.user_deleted:
+        out.append(("deleted", "the directory the script advises to delete contains a completed step",
+                    run.user_deleted[0], "completed steps are never removed", None))
     for ev in run.events:
         if ev[0] == "C":
             parts = ev[1:].split("/")
@@ -583,27 +601,27 @@ def judge(run, ref):
             st = tuple(int(x) for x in ev[1:].split(".")) if ev[1:] != "?" else None
             if st in done_so_far:
                 out.append(("deleted", "the directory of a completed step is deleted (%s)" % ("by the script's rmtree" if ev[0] == "R" else "on the script's advice"),
-                            ev, "completed steps are never removed"))
+                            ev, "completed steps are never removed", None))
                 break
     idx = 0
     for st, text, done, l in run.launches:
         if st not in ref_launch:
-            out.append(("extra", "a step is launched that the uninterrupted run never launches", list(st), sorted(ref_launch)[:12]))
+            out.append(("extra", "a step is launched that the uninterrupted run never launches", list(st), sorted(ref_launch)[:12], idx))
         elif ref_launch[st] != text:
-            out.append(("inputs", "a step is launched with other inputs than in the uninterrupted run", text, ref_launch[st]))
+            out.append(("inputs", "a step is launched with other inputs than in the uninterrupted run", text, ref_launch[st], idx))
         expected = successor(completed[-1], B) if completed else first_done
         if st != expected:
-            if st in completed:
-                out.append(("twice", "a completed step is launched again", list(st), list(expected)))
+            if st in completed or st in run.pre_done:
+                out.append(("twice", "a completed step is launched again", list(st), list(expected), idx))
             else:
-                out.append(("skipped", "a step index is skipped", list(st), list(expected)))
+                out.append(("skipped", "a step index is skipped", list(st), list(expected), idx))
         if run.cfg["mode"] == "r" and l["wf"] in (1, 2):
             m = st[0] * B + st[1]
             pred = ((m - 1) // B, (m - 1) % B) if m > 0 else None
             scr = l["screen"]
             if scr is None or pred is None or (scr[0], scr[1]) != pred or scr[2] != (1, 0):
                 out.append(("predecessor", "a step is started from a screen that is not the output (advanced screen) of its immediate predecessor",
-                            show_ref(scr), "advanced_screen.h5 of step %s" % (list(pred) if pred else None)))
+                            show_ref(scr), "advanced_screen.h5 of step %s" % (list(pred) if pred else None), idx))
         if l["wf"] == 2:
             # absolute oracle: a later plate of an iteration is selected with the model trained by plate 0 of that
             # iteration and must exclude exactly the plates selected so far in that iteration
@@ -611,28 +629,43 @@ def judge(run, ref):
             want_ex = sorted(c for s2, l2 in mates.items() for k, c in fake_pubs(run.cfg, l2) if k == (6, 0))
             if sorted(l["excludes"] or []) != want_ex or set(s2[1] for s2 in mates) != set(range(st[1])):
                 out.append(("inputs", "a plate is selected without excluding exactly the plates already selected in its iteration",
-                            l["excludes"], want_ex))
+                            l["excludes"], want_ex, idx))
             if (st[0], 0) in mates:
                 want_ch = sorted((k, c) for k, c in fake_pubs(run.cfg, mates[(st[0], 0)]) if k[0] in (4, 5))
                 if sorted(l["chains"]) != want_ch:
                     out.append(("inputs", "a plate is selected with other posterior samples / distance chunks than plate 0 of its iteration published",
-                                [show_file(k, c) for k, c in sorted(l["chains"])], [show_file(k, c) for k, c in want_ch]))
+                                [show_file(k, c) for k, c in sorted(l["chains"])], [show_file(k, c) for k, c in want_ch], idx))
         if done:
             completed.append(st)
         idx += 1
     if completed != ref_done and run.status == "ok":
-        out.append(("sequence", "the completed steps are not the uninterrupted sequence (each once, in order)", [list(s) for s in completed], [list(s) for s in ref_done]))
+        out.append(("sequence", "the completed steps are not the uninterrupted sequence (each once, in order)", [list(s) for s in completed], [list(s) for s in ref_done], None))
     if run.tree != ref.tree and run.status == "ok":
         out.append(("tree", "the final output directory (recorded selections, screens, markers) differs from the uninterrupted run",
-                    run.tree[:600], ref.tree[:600]))
+                    run.tree[:600], ref.tree[:600], None))
     prio = ["deleted", "twice", "skipped", "inputs", "predecessor", "extra", "sequence", "tree", "finish", "reference"]
     out.sort(key=lambda f: prio.index(f[0]))
     return out
 
 
-def signature(run, key):
-    if run.cfg["mode"] == "p" and run.cfg["mfirst"] and run.in_window:
-        return KNOWN_SIG
+# what the known finding explains: the marker-first `prospective` workflow was interrupted during a plate_0 step after
+# screen_metadata.json and before its last publication; the rerun takes that plate_0 for complete, i.e. the NEXT launch is
+# the successor of that step (with whatever partial chain files / selection plate_0 holds), the step itself never
+# completes, or the rerun dies with "No thetas or dist_chunks found".  It never explains: a removal of a completed step,
+# a re-launch of a completed step, anything wrong at or before the interrupted launch, a next launch that is not that
+# successor, or anything in retrospective mode / with a marker-last workflow / without such an interruption.
+KNOWN_KEYS = ("skipped", "inputs", "extra", "sequence", "tree", "finish")
+
+
+def signature(run, finding):
+    key, li = finding[0], finding[4]
+    w = run.window_launch
+    if (run.cfg["mode"] == "p" and run.cfg["mfirst"] and run.in_window and w is not None and key in KNOWN_KEYS
+            and (li is None or li > w)):
+        st_w = run.launches[w][0]
+        nxt = run.launches[w + 1][0] if len(run.launches) > w + 1 else None
+        if st_w[1] == 0 and run.launches[w][3]["wf"] == 3 and (nxt is None or nxt == successor(st_w, run.cfg["B"])):
+            return KNOWN_SIG
     return "C19:" + key
 
 
@@ -773,21 +806,33 @@ def real_examine(mod, outdir, B):
 # ------------------------------------------------------------------------------------------------------
 
 def configs(ctx):
+    """-> list of (cfg, pre, pairs): configuration, crash-free process runs executed first, explore pairs of interruptions"""
     quick = ctx.tier == "quick" and ctx.mode != "search"
-    Bs = (1, 2, 3) if quick else (1, 2, 3, 4)
-    Ps = (1, 2, 3, 5) if quick else (1, 2, 3, 4, 5, 7, 9)
+    Bs = (1, 2, 3, 4)
     out = []
     v = 0
     for B in Bs:
+        if quick:
+            Ps = (1, 2, 3, 5) if B < 4 else (2, 5)
+        else:
+            Ps = (1, 2, 3, 4, 5, 7, 9)
         for P in Ps:
             for extra in ((0,) if quick or P > 4 else (0, 1, 2)):
-                out.append(({"mode": "r", "B": B, "P": P, "nch": 2 if P < 7 else 1, "nck": 2 if P < 5 else 1,
-                             "variant": (v + extra) % 3, "mfirst": False}, 0))
+                cfg = {"mode": "r", "B": B, "P": P, "nch": 2 if P < 7 else 1, "nck": 2 if P < 5 else 1,
+                       "variant": (v + extra) % 3, "mfirst": False}
+                out.append((cfg, 0, (not quick) or P <= (3 if B < 4 else 2)))
             v += 1
         for mfirst in (True, False):
             for pre in (0, 1):
-                out.append(({"mode": "p", "B": B, "P": 3, "nch": 2, "nck": 2, "variant": v % 3, "mfirst": mfirst}, pre))
+                cfg = {"mode": "p", "B": B, "P": 3, "nch": 2, "nck": 2, "variant": v % 3, "mfirst": mfirst}
+                out.append((cfg, pre, (not quick) or (pre == 0 and B <= 2)))
                 v += 1
+    # two-digit iteration indices (iter_10, iter_11 sort after iter_9 only numerically): single interruptions
+    out.append(({"mode": "r", "B": 1, "P": 11, "nch": 1, "nck": 1, "variant": 0, "mfirst": False}, 0, False))
+    out.append(({"mode": "p", "B": 2, "P": 3, "nch": 1, "nck": 1, "variant": 1, "mfirst": False}, 10, False))
+    if not quick:
+        out.append(({"mode": "r", "B": 2, "P": 22, "nch": 1, "nck": 1, "variant": 2, "mfirst": False}, 0, False))
+        out.append(({"mode": "p", "B": 3, "P": 3, "nch": 1, "nck": 1, "variant": 2, "mfirst": True}, 11, False))
     return out
 
 
@@ -800,7 +845,7 @@ def explore(cfg, pre, pairs, workdir):
         case = {"cfg": cfg, "crashes": list(crashes), "pre": pre}
         run, ref, findings = run_case(case, workdir, cache)
         results.append({"case": case, "line": run.driver_line(), "observed": run.observed(), "findings": findings,
-                        "sig": [signature(run, f[0]) for f in findings], "nontrivial": run.hit_after_outdir,
+                        "sig": [signature(run, f) for f in findings], "nontrivial": run.hit_after_outdir,
                         "segments": run.segments, "window": run.in_window})
         return run, ref
 
@@ -841,11 +886,7 @@ def run(ctx, res):
     try:
         cfgs = configs(ctx)
         pairs_all = not (ctx.tier == "quick" and ctx.mode != "search")
-        jobs = []
-        for cfg, pre in cfgs:
-            # quick: pairs only for the smallest configurations
-            pairs = pairs_all or (cfg["mode"] == "r" and cfg["P"] <= 3) or (cfg["mode"] == "p" and pre == 0 and cfg["B"] <= 2)
-            jobs.append((cfg, pre, pairs, base))
+        jobs = [(cfg, pre, pairs, base) for cfg, pre, pairs in cfgs]      # quick: pairs only for the smallest configurations
         if pairs_all:
             import multiprocessing
             with multiprocessing.get_context("fork").Pool(min(14, os.cpu_count() or 2)) as pool:
@@ -932,6 +973,6 @@ def replay(ctx, case, res):
             return
         run, ref, findings = run_case(case, base)
         for f in findings:
-            res.fail("%s [%s]" % (f[1], describe(case["cfg"])), case, f[2], f[3], signature=signature(run, f[0]))
+            res.fail("%s [%s]" % (f[1], describe(case["cfg"])), case, f[2], f[3], signature=signature(run, f))
     finally:
         shutil.rmtree(base, ignore_errors=True)
